@@ -51,7 +51,7 @@ def verify_mapping(colsA, edgesA, colsB, edgesB, mapping):
     return ea == eb and len(ea) == len({frozenset(e) for e in edgesA})
 
 
-def find_isomorphism(colsA, edgesA, colsB, edgesB, node_budget=200000):
+def find_isomorphism(colsA, edgesA, colsB, edgesB, node_budget=4000):
     """Return a list mapping A-vertex -> B-vertex, or None if none exists.
     Returns "budget" when the search budget is exhausted (inconclusive)."""
     n = len(colsA)
@@ -70,7 +70,8 @@ def find_isomorphism(colsA, edgesA, colsB, edgesB, node_budget=200000):
     adj = _joint(adjA, adjB)
     ranks = {c: r for r, c in enumerate(sorted(set(colsA)))}
     col0 = [ranks[c] for c in colsA] + [ranks[c] for c in colsB]
-    budget = [node_budget]
+    # the budget is work-like: each search node costs about (n + m) * rounds; keep the total bounded
+    budget = [max(16, min(node_budget, 4_000_000 // ((n + len(edgesA)) * 8 + 1)))]
 
     def search(col):
         budget[0] -= 1
@@ -138,7 +139,7 @@ def _vf2(colsA, edgesA, colsB, edgesB):
     return None
 
 
-def isomorphic(colsA, edgesA, colsB, edgesB, crosscheck_n=24):
+def isomorphic(colsA, edgesA, colsB, edgesB, crosscheck_n=10):
     """True / False / None (inconclusive).  Independent double-check for small graphs."""
     r = find_isomorphism(colsA, edgesA, colsB, edgesB)
     if r == "budget":
